@@ -271,6 +271,18 @@ def run(tier):
                 refused = True
             add({'e': 'lc', 'g': g, 'a': a, 'refused': refused, 'ret': ret}, {'history': h, 'action': a})
     rejects, stats = validate('traces/UnifyTrace.tla', events, 'c06', per_shard=8000, group='g')
+    from ..trace import binding_demo
+
+    def flip_ok(e):
+        if e['e'] == 'call' and not e['raised']:
+            e['ok'] = not e['ok']
+            return e
+
+    def wrong_binding(e):
+        if e['e'] == 'call' and e['ok'] and e['binds'] and e['binds'][0]['c']['k'] == 'A':
+            e['binds'][0]['c'] = {'k': 'A', 'b': 'ZZ', 'f': e['binds'][0]['c']['f']}
+            return e
+    demo = binding_demo('traces/UnifyTrace.tla', events, [('verdict_flipped', flip_ok), ('binding_replaced', wrong_binding)], 'c06', group='g')
     viols = []
     for (i, clause) in rejects:
         m = metas[i]
@@ -285,6 +297,7 @@ def run(tier):
         'transitions': trans + stats.transitions,
         'traces_validated_against_impl': len(events),
         'exhaustive': True,
+        'binding_demonstration': demo,
         'events': {'tlc_vectors_replayed': n_vec, 'tlc_verdicts': agree, 'pattern_pairs_of_grammars': len(gpats), 'random_patterns': len(rpats),
                    'instantiated_inputs': n_inst, 'random_inventory_pairs': n_rand, 'lifecycle_histories': len(hists),
                    'successful_matches': n_ok},
